@@ -43,6 +43,13 @@ CHECKS = {
         "end point as corner); the dumped graph equals the real graph; every real state (tiling, balance, vertex uniqueness, levels) and every targeting call "
         "(returned cell, vertex_from_coords) is judged by TLC; random histories with deep segments (l <= 10).",
    note="refine_msh_bdr only for segments contained in an edge of a current leaf (precondition, found by TLC); uniform_refine only on level-uniform meshes. Trusted: TLC, projection by the code's midpoint rule."),
+ "C18": dict(level="exploration", design="§5 C18", engine="paraminit",
+   technique="TLC enumeration of ParamInit.tla / Polygon.tla configurations, each constructed with the real code; results judged by TLC (TraceParamInit, Judge)",
+   text="ParamInit.tla is model-checked per curve shape (all time grids with 1..6 slabs x all space grids made of the break points plus any subset of piece mid points): "
+        "PieceOK, MinThree, TouchOnce, TilesSlab; every configuration is built with the real MeshParametrized and the real leaves (slab, interval, piece carried) are judged "
+        "by TLC, also after random refinements. Polygon.tla enumerates rectilinear lattice polygons for the constructor. Geometry (arc length, piece lengths, continuity, closure, "
+        "eval == containing piece) is measured against exact segment geometry and judged by the generic TLC judge with a class-coverage postcondition.",
+   note="Exploration: space grids are break points + mid points only; geometry at random parameters per piece; tolerance 1e-12. Trusted: TLC, NumPy norms, sin for circle chords."),
 }
 
 NOT_YET = {}
@@ -81,6 +88,8 @@ def main():
         "engines": [
             {"name": "stmesh", "path": "/verif/spec/STMesh.tla", "serves_properties": ["C02", "C10", "C06", "C19", "C18"],
              "kind_free_text": "TLA+ specification of the space-time mesh; TLC exhaustive + trace judge (spec/trace/TraceSTMesh.tla)"},
+            {"name": "paraminit", "path": "/verif/spec/ParamInit.tla", "serves_properties": ["C18"],
+             "kind_free_text": "TLA+ model of MeshParametrized.__init__ on abstract piecewise curves + Polygon.tla + generic numeric judge spec/trace/Judge.tla"},
             {"name": "quadtree", "path": "/verif/spec/QuadTree.tla", "serves_properties": ["C16", "C08"],
              "kind_free_text": "TLA+ specification of the domain quadtree; TLC exhaustive + trace judge (spec/trace/TraceQuadTree.tla)"},
         ],
